@@ -696,10 +696,35 @@ func ruleWireListing(w *World, r *RuleResult) {
 
 // ---------------------------------------------------------------- WIRE.cli / WIRE.tally
 
+// flagVars: storage registered with flag.XxxVar(&storage, name, ...) -> flag name
+var flagVars map[string]string
+
+func collectFlagVars(paths []*Path) {
+	if flagVars != nil {
+		return
+	}
+	flagVars = map[string]string{}
+	for _, p := range paths {
+		for _, e := range p.Events {
+			if e.Kind != "call" || e.Callee == nil || e.Callee.Pkg == nil || e.Callee.Pkg.Pkg.Path() != "flag" || !strings.HasSuffix(e.Callee.Name(), "Var") {
+				continue
+			}
+			for i, a := range e.Args {
+				if a.Op == "addr" && i+1 < len(e.Args) && e.Args[i+1].Op == "str" {
+					flagVars[stripEpoch(a.A[0]).Key()] = e.Args[i+1].S
+				}
+			}
+		}
+	}
+}
+
 func flagOf(t *T) (string, bool) {
 	t = stripConv(t)
 	for t.Op == "conv" {
 		t = t.A[0]
+	}
+	if n, ok := flagVars[stripEpoch(t).Key()]; ok && (t.Op == "sel" || t.Op == "new" || t.Op == "alloc") {
+		return n, true
 	}
 	if t.Op == "deref" && t.A[0].Op == "call" && strings.HasPrefix(t.A[0].S, "flag.") && len(t.A[0].A) >= 1 && t.A[0].A[0].Op == "str" {
 		return t.A[0].A[0].S, true
@@ -723,6 +748,7 @@ func ruleWireCLI(w *World, r *RuleResult) {
 		r.undecided("main", w.Pos(main.Pos()), err.Error())
 		return
 	}
+	collectFlagVars(paths)
 	d := newDedup(r)
 	c := newSimCtx(w)
 	// NewQuickConfig: parameter -> config fields
@@ -925,6 +951,7 @@ func ruleWireTally(w *World, r *RuleResult) {
 		r.undecided("main", w.Pos(main.Pos()), err.Error())
 		return
 	}
+	collectFlagVars(paths)
 	c := newSimCtx(w)
 	// printed counters, in order
 	var printed [][]*T
@@ -960,7 +987,7 @@ func ruleWireTally(w *World, r *RuleResult) {
 		r.undecided("print", pos, "could not find the two result lines (Printf with two %d)")
 		return
 	}
-	names := map[string]string{}
+	names := map[string][]string{} // one counter may serve several roles (a shared tie counter printed on both lines)
 	roles := []string{"win1", "tie1", "win2", "tie2"}
 	k := 0
 	// a counter is a loop-carried variable of the rounds loop or a field of storage main owns
@@ -987,7 +1014,7 @@ func ruleWireTally(w *World, r *RuleResult) {
 				r.bad("print/"+roles[k], pos, "result value "+fmt.Sprint(k+1)+" is not one of the round-loop counters")
 				return
 			}
-			names[ck] = roles[k]
+			names[ck] = append(names[ck], roles[k])
 			k++
 		}
 	}
@@ -1020,14 +1047,16 @@ func ruleWireTally(w *World, r *RuleResult) {
 		inc := map[string]int64{}
 		isRounds := last.Res.C == roundsHdr
 		for i, ph := range phis {
-			if ro, ok := names["phi:"+ph.Comment]; ok && i < len(last.Args) {
+			if ros, ok := names["phi:"+ph.Comment]; ok && i < len(last.Args) {
 				isRounds = true
 				l := linearOf(last.Args[i])
 				dl := l.Const
 				if len(l.Coef) != 1 {
 					dl = 99
 				}
-				inc[ro] = dl
+				for _, ro := range ros {
+					inc[ro] = dl
+				}
 			}
 		}
 		if !isRounds {
@@ -1039,12 +1068,14 @@ func ruleWireTally(w *World, r *RuleResult) {
 			if e.Kind != "store" || e.LV.Op != "sel" {
 				continue
 			}
-			if ro, ok := names["mem:"+stripEpoch(e.LV).Key()]; ok {
+			if ros, ok := names["mem:"+stripEpoch(e.LV).Key()]; ok {
 				l := linearOf(e.Val)
-				if len(l.Coef) != 1 {
-					inc[ro] = 99
-				} else {
-					inc[ro] += l.Const
+				for _, ro := range ros {
+					if len(l.Coef) != 1 {
+						inc[ro] = 99
+					} else {
+						inc[ro] += l.Const
+					}
 				}
 			}
 		}
@@ -1052,6 +1083,13 @@ func ruleWireTally(w *World, r *RuleResult) {
 		alive := map[int][]bool{}
 		for _, cd := range p.Conds {
 			a := cd.Atom
+			// element i of the survivor list Run() returns (RUN.only: result[i] is warrior i's aliveness)
+			if x := stripConv(a); x.Op == "elem" && x.A[1].IsConst() {
+				if b := stripConv(x.A[0]); b.Op == "call" && strings.HasSuffix(b.S, "Run") {
+					alive[int(x.A[1].C)+1] = append(alive[int(x.A[1].C)+1], cd.Val)
+					continue
+				}
+			}
 			if a.Op == "call" && a.S == "Alive" && len(a.A) == 1 {
 				rc := a.A[0].Show()
 				if a.A[0].Op == "nil" {
@@ -1102,6 +1140,21 @@ func ruleWireTally(w *World, r *RuleResult) {
 			return (a.Op == "eq" && v && a.A[1].IsConstVal(1) && a.A[0].Op == "len") ||
 				(a.Op == "lt" && !v && a.A[0].IsConstVal(1) && a.A[1].Op == "len") // !(1 < len(warriors))
 		})
+		// the survivor list has one entry per loaded warrior (RUN.only): a path on which the two
+		// lengths disagree about "one warrior" does not exist
+		oneKnown := map[bool]bool{}
+		for _, cd := range p.Conds {
+			a := cd.Atom
+			if a.Op == "eq" && a.A[1].IsConstVal(1) && a.A[0].Op == "len" {
+				oneKnown[cd.Val] = true
+			}
+			if a.Op == "lt" && a.A[0].IsConstVal(1) && a.A[1].Op == "len" {
+				oneKnown[!cd.Val] = true
+			}
+		}
+		if oneKnown[true] && oneKnown[false] {
+			continue
+		}
 		want := map[string]int64{"win1": 0, "tie1": 0, "win2": 0, "tie2": 0}
 		row := ""
 		if single {
